@@ -9,6 +9,7 @@ import (
 	"fmt"
 	"sort"
 	"strings"
+	"time"
 
 	bs "github.com/danthegoodman1/bloomsearch"
 )
@@ -121,6 +122,7 @@ func runMerge(c *ctx, which string) {
 	for hi := 0; hi < hist; hi++ {
 		cfg, tm, pm, keys := genMergeConfig(r)
 		h := &History{Env: NewEnv(cfg), TM: tm, PartMode: pm, Keys: keys, Rows: map[int]*StoredRow{}}
+		h.PadBytes = pick(r, []int{0, 0, 200, 500})
 		for step := 0; step < 3; step++ {
 			// populate
 			for i := 0; i < 4+r.IntN(8); i++ {
@@ -369,6 +371,7 @@ func runMerge(c *ctx, which string) {
 	}
 	if which == "C12" {
 		syntheticFileGroups(c)
+		byteLimitMerges(c)
 	}
 }
 
@@ -475,5 +478,76 @@ func syntheticFileGroups(c *ctx) {
 		if got != want {
 			c.r.Add(Finding{Kind: "disagreement", Check: "file-grouping", Detail: "identifyFileMergeGroups differs from the Lean fileGroups", Replay: map[string]any{"line": t.String(), "impl": got, "model": want}})
 		}
+	}
+}
+
+// byteLimitMerges: populations built so that the BYTE limits bind before the row limit: k one-row blocks of
+// one partition with a compressible filler (compressed size << uncompressed size), MaxRowGroupBytes /
+// MaxFileSize set to a fractional multiple of one block / file. Every merged block and file must respect the
+// limits in uncompressed / on-disk terms, and the rows must survive.
+func byteLimitMerges(c *ctx) {
+	r := NewRng(c.seed, 112)
+	for i := 0; i < 30*c.scale; i++ {
+		cfg := bs.DefaultBloomSearchEngineConfig()
+		cfg.PartitionFunc = partitionFunc("p")
+		cfg.MaxBufferedTime = time.Hour
+		cfg.RowDataCompression = pick(r, []bs.CompressionType{bs.CompressionSnappy, bs.CompressionZstd, bs.CompressionNone, bs.CompressionSnappy})
+		cfg.MaxRowGroupRows = 1000
+		cfg.MaxFilesToMergePerOperation = 8
+		env := NewEnv(cfg)
+		h := &History{Env: env, Rows: map[int]*StoredRow{}}
+		k := 3 + r.IntN(4)
+		pad := 100 + r.IntN(600)
+		for j := 0; j < k; j++ {
+			env.IngestWait([]map[string]any{{"_id": j + 1, "p": "a", "zpad": strings.Repeat("q", pad+r.IntN(20))}})
+		}
+		before, err := h.Layout()
+		if err != nil || len(before) != k {
+			fatal("byteLimitMerges: layout %v (%d files)", err, len(before))
+		}
+		u := before[0].Blocks[0].Meta.UncompressedSize
+		fsz, _ := fileStats(before[0].Meta)
+		factor := pick(r, []float64{1.5, 2.5, 3.5})
+		mode := pick(r, []string{"row-group-bytes", "row-group-bytes", "file-size"})
+		env.Cfg.MaxRowGroupBytes = 10 << 20
+		if mode == "row-group-bytes" {
+			env.Cfg.MaxRowGroupBytes = int(float64(u+24) * factor)
+		} else {
+			env.Cfg.MaxFileSize = int(float64(fsz) * factor)
+		}
+		env.Reopen()
+		_, merr := env.Eng.Merge(context.Background())
+		after, lerr := h.Layout()
+		replay := map[string]any{"files": k, "pad": pad, "compression": string(cfg.RowDataCompression), "mode": mode, "block_uncompressed": u, "file_size": fsz,
+			"MaxRowGroupBytes": env.Cfg.MaxRowGroupBytes, "MaxFileSize": env.Cfg.MaxFileSize}
+		c.r.Case(true, fmt.Sprint("bytelimit", i, k, pad, mode, factor))
+		c.r.Hit("bytelimit." + mode)
+		if merr != nil || lerr != nil {
+			c.r.Add(Finding{Kind: "violation", Check: "byte-limit-merge-failed", Detail: fmt.Sprintf("merge %v / layout %v", merr, lerr), Replay: replay})
+			env.Stop()
+			continue
+		}
+		ids := map[int]int{}
+		for _, f := range after {
+			total, _ := fileStats(f.Meta)
+			if mode == "file-size" && len(f.Blocks) > 0 && total > env.Cfg.MaxFileSize && total > fsz+64 {
+				c.r.Add(Finding{Kind: "violation", Check: "max-file-size", Detail: fmt.Sprintf("merge output holds %d bytes of blocks; MaxFileSize %d (one source file: %d)", total, env.Cfg.MaxFileSize, fsz), Replay: replay})
+			}
+			for _, b := range f.Blocks {
+				if b.Meta.Rows > 1 && b.Meta.UncompressedSize > env.Cfg.MaxRowGroupBytes {
+					c.r.Add(Finding{Kind: "violation", Check: "row-group-limits", Detail: fmt.Sprintf("combined block has %d rows / %d uncompressed bytes; MaxRowGroupBytes %d (%s, one source block: %d bytes uncompressed, %d on disk)",
+						b.Meta.Rows, b.Meta.UncompressedSize, env.Cfg.MaxRowGroupBytes, cfg.RowDataCompression, u, before[0].Blocks[0].Meta.RowDataSize), Replay: replay})
+				}
+				for _, id := range b.RowIDs {
+					ids[id]++
+				}
+			}
+		}
+		for j := 1; j <= k; j++ {
+			if ids[j] != 1 {
+				c.r.Add(Finding{Kind: "violation", Check: "rows-preserved", Detail: fmt.Sprintf("row %d stored %d times after the merge", j, ids[j]), Replay: replay})
+			}
+		}
+		env.Stop()
 	}
 }
